@@ -100,12 +100,23 @@ class Run:
         """Fail the run (analysis error) if the rule matched fewer instances than confirmed by hand."""
         found = self.count(rule)
         self.floors[rule] = (found, n)
-        if found < n and not self.findings:
+        if found < n and not self._new_findings():
             und = [u for u in self.undecided_sites if u['rule'].startswith(rule)]
             raise AnalysisError('rule %s matched %d instance(s), floor is %d%s%s' % (
                 rule, found, n, (' (%s)' % what) if what else '',
                 ('; undecided sites: ' + '; '.join('%s %s: %s' % (u['function'], u['construct'][:60], u['reason'])
                                                    for u in und[:4])) if und else ''))
+
+    def _is_known(self, fd, known=None):
+        for k in (known if known is not None else self._known()):
+            if (k['property'] == fd.prop and k['rule'] == fd.rule and k['file'] == fd.rel
+                    and k['function'] == fd.func and k['construct'] == fd.construct):
+                return k
+        return None
+
+    def _new_findings(self):
+        known = self._known()
+        return [fd for fd in self.findings if self._is_known(fd, known) is None]
 
     def decide(self, text):
         self.decided.append(text)
